@@ -1,9 +1,12 @@
 #!/bin/bash
 # usage: try_seeded.sh <PROP> <mutant dir with patch.diff, demo_test.go> <package dir for the demo> [check args...]
 # 1. confirms in the scratch worktree /tmp/mut/<PROP>: builds, existing tests pass with the patch, demo fails with / passes without
-# 2. applies the patch to /repo, runs ./check <PROP>, restores /repo
+# 2. applies the patch to $R, runs ./check <PROP>, restores $R
 set -u
 PROP=$1; MD=$2; PKG=$3; shift 3
+# EVAL_VERIF / EVAL_REPO: a snapshot of /verif and a clone of $R to evaluate against, so that evaluations can run
+# while /verif and $R themselves are being worked on
+V=${EVAL_VERIF:-/verif}; R=${EVAL_REPO:-/repo}
 WT=${WT_OVERRIDE:-${MUTROOT:-/tmp/mut}/$PROP}
 export GOFLAGS=-mod=mod GOPROXY=off GOSUMDB=off
 cd $WT || exit 9
@@ -22,14 +25,15 @@ cp $DEMO $WT/$PKG/zz_demo_test.go
 ( cd $WT/$PKG && go test -count=1 -run . . 2>&1 | tail -4 )
 rm -f $WT/$PKG/zz_demo_test.go
 git checkout -q -- . ; git clean -qfd -e out
-echo "== my check against the patched /repo"
-cd /verif
-trap 'git -C /repo checkout -q HEAD -- . 2>/dev/null' EXIT TERM INT
-# /repo may have moved on since the worktree was cut (a fix: commit): fall back to a three-way merge on the blobs the
+echo "== my check against the patched $R"
+cd $V
+export VERIF_REPO=$R
+trap "git -C $R checkout -q HEAD -- . 2>/dev/null" EXIT TERM INT
+# $R may have moved on since the worktree was cut (a fix: commit): fall back to a three-way merge on the blobs the
 # patch names (never to fuzzy context matching, which once moved a hunk into another branch)
-git -C /repo apply $MD/patch.diff 2>/dev/null || { git -C /repo apply --3way $MD/patch.diff >/dev/null 2>&1 && [ -z "$(git -C /repo diff --name-only --diff-filter=U)" ] && echo "(applied with a three-way merge)"; } || { echo PATCH-DOES-NOT-APPLY-TO-REPO; git -C /repo checkout -q HEAD -- .; exit 7; }
+git -C $R apply $MD/patch.diff 2>/dev/null || { git -C $R apply --3way $MD/patch.diff >/dev/null 2>&1 && [ -z "$(git -C $R diff --name-only --diff-filter=U)" ] && echo "(applied with a three-way merge)"; } || { echo PATCH-DOES-NOT-APPLY-TO-REPO; git -C $R checkout -q HEAD -- .; exit 7; }
 timeout 1300 ./check $PROP "$@" 2>&1 | grep -E "VIOLATION|class=|KNOWN|ERROR|runs \(" | cut -c1-260 | head -8
 echo "check exit: ${PIPESTATUS[0]}"
-git -C /repo checkout -q HEAD -- .
-find /repo -name "*.orig" -newer /verif/tools/try_seeded.sh -delete 2>/dev/null
-git -C /repo status --short | head -3
+git -C $R checkout -q HEAD -- .
+find $R -name "*.orig" -newer $V/tools/try_seeded.sh -delete 2>/dev/null
+git -C $R status --short | head -3
